@@ -6,6 +6,7 @@
 (*   ENTRY VALUE can be read on some path from the function entry before   *)
 (*   the register is overwritten is reported as a parameter.               *)
 (* ONE direction only:   MustBeParam(C, f) \subseteq Reported(f).          *)
+(* (MustBeParam = MustBeParamFull, see note 2 below.)                      *)
 (* Extra reported parameters (the analysis tracks values, not registers,   *)
 (* and over-approximates) never raise an alarm.                            *)
 (*                                                                         *)
@@ -41,13 +42,24 @@
 (*     context/mod.rs update_def).  Stack addresses are recognised          *)
 (*     syntactically (the address expression reads the stack pointer); the  *)
 (*     input class keeps stack addresses out of other registers.           *)
-(*  2. The analysis treats a call that does not return as a dead end        *)
-(*     ("we treat it as a dead end in the control flow graph",             *)
-(*     update_call_stub) and transfers callee reads to the caller only at  *)
-(*     a return (update_return): reads made by a noreturn extern call, by   *)
-(*     a call without return site, and callee reads on paths that never     *)
-(*     return are not required to be reported in the caller.  Accordingly  *)
-(*     the walker only walks where the analysis has a state (LiveNodes).   *)
+(*  2. (NOT a deviation any more -- decided as the property is stated.)    *)
+(*     The analysis treats a call that does not return as a dead end        *)
+(*     (update_call_stub) and transfers callee reads to the caller only at  *)
+(*     a return (update_return).  The property demands these reads all the  *)
+(*     same, so the specification computes TWO sets per function:           *)
+(*       MustBeParamReturning  the reads along edges on which the analysis  *)
+(*                             propagates a state (returning calls only);   *)
+(*       MustBeParamFull       additionally, at every call jump of a        *)
+(*                             reached block: the declared parameters of    *)
+(*                             the extern symbol (also a noreturn one, also *)
+(*                             without return site), the standard           *)
+(*                             parameters of an indirect call, and the      *)
+(*                             callee's own MustBeParamFull for an internal *)
+(*                             call (least fixpoint over the call graph) -- *)
+(*                             whether or not the call returns.             *)
+(*     The REQUIREMENT is MustBeParamFull(f) \subseteq Reported(f).  A     *)
+(*     register that is only in Full is missed for one of the reason        *)
+(*     classes of MissReasons (recorded defects of the implementation).     *)
 (*  3. A declared parameter / float parameter that is a sub-register        *)
 (*     expression is evaluated as a value (loses the identifier): only      *)
 (*     plain-register parameters are required.                             *)
@@ -85,13 +97,14 @@ Context(PJ) ==
       \* the edges the walker may take: passing edges between live nodes, never into another function
       WE == {e \in E : /\ e.src \in live /\ e.dst \in live /\ PlainPass(jmp, ext, e) /\ e.k # "CrReturnStub"}
   IN  [PJ |-> PJ, P |-> P, E |-> E, jmp |-> jmp, ext |-> ext, entries |-> entries, live |-> live,
-       wout |-> [n \in live |-> {e \in WE : e.src = n}],
-       wsucc |-> [n \in live |-> {e.dst : e \in {x \in WE : x.src = n}}],
+       wout |-> Table([n \in live |-> {e \in WE : e.src = n}]),
+       wsucc |-> Table([n \in live |-> {e.dst : e \in {x \in WE : x.src = n}}]),
        \* per function TID: its convention, its tracked parameter registers (not the stack pointer)
-       cc |-> [t \in SubTids(P) |-> SubCconv(PJ, t)],
-       pr |-> [t \in SubTids(P) |-> ParamRegs(SubCconv(PJ, t)) \ {SpName(PJ)}],
-       \* defs of the block behind every live BlkStart node
-       defs |-> [n \in {x \in live : x.k = "BlkStart"} |-> BlkOfNode(P, n).defs]]
+       cc |-> Table([t \in SubTids(P) |-> SubCconv(PJ, t)]),
+       pr |-> Table([t \in SubTids(P) |-> ParamRegs(SubCconv(PJ, t)) \ {SpName(PJ)}]),
+       \* defs / jumps of the block behind every live BlkStart / BlkEnd node
+       defs |-> Table([n \in {x \in live : x.k = "BlkStart"} |-> BlkOfNode(P, n).defs]),
+       jmps |-> Table([n \in {x \in live : x.k = "BlkEnd"} |-> BlkOfNode(P, n).jmps])]
 
 \* the parameter registers tracked for the function with TID t (the stack pointer is not tracked)
 PR(C, t) == C.pr[t]
@@ -151,14 +164,15 @@ Step(C, RP, f, s) ==
 
 RECURSIVE Explore(_, _, _, _, _, _)
 Explore(C, RP, f, visited, frontier, reads) ==
-  IF frontier = {} THEN reads
+  IF frontier = {} THEN [reads |-> reads, states |-> visited]
   ELSE LET rs == {Step(C, RP, f, s) : s \in frontier}
            new == UNION {r.next : r \in rs} \ visited
        IN  Explore(C, RP, f, visited \cup new, new, reads \cup UNION {r.reads : r \in rs})
 
-\* read events of the function with TID f: <<node after the reading edge, register>>
-ReadEvents(C, RP, f) ==
-  LET s0 == St(C.entries[f], {}) IN Explore(C, RP, f, {s0}, {s0}, {})
+\* the walk of the function with TID f: [reads |-> read events <<node after the reading edge,
+\* register>>, states |-> all walker states reached]
+Walk(C, RP, f) == LET s0 == St(C.entries[f], {}) IN Explore(C, RP, f, {s0}, {s0}, {})
+ReadEvents(C, RP, f) == Walk(C, RP, f).reads
 
 (***************************************************************************)
 (* RetParams: least fixpoint over the call graph                           *)
@@ -177,16 +191,53 @@ ReadsReaching(C, events, target) ==
   {ev[2] : ev \in {x \in events : target \in CtlClosure(C.wsucc, {x[1]}, {x[1]})}}
 
 NextRP(C, RP) ==
-  LET evs == [f \in FunTids(C) |-> ReadEvents(C, RP, f)]
-  IN  [n \in CallReturnNodes(C) |->
-         ReadsReaching(C, evs[n.sub2], Node("BlkEnd", n.blk2, n.sub2, NoTid, NoTid))]
+  LET evs == Table([f \in FunTids(C) |-> ReadEvents(C, RP, f)])
+  IN  Table([n \in CallReturnNodes(C) |->
+         ReadsReaching(C, evs[n.sub2], Node("BlkEnd", n.blk2, n.sub2, NoTid, NoTid))])
 RECURSIVE RPFix(_, _)
 RPFix(C, RP) == LET N == NextRP(C, RP) IN IF N = RP THEN RP ELSE RPFix(C, N)
-RetParams(C) == RPFix(C, [n \in CallReturnNodes(C) |-> {}])
+RetParams(C) == RPFix(C, Table([n \in CallReturnNodes(C) |-> {}]))
 
-\* The registers that must be reported for every function: TID -> set of register names
-MustBeParamAll(C) ==
+(***************************************************************************)
+(* The two parameter sets (function TID -> set of register names)          *)
+(***************************************************************************)
+\* registers read by the call jump j itself (declared / convention parameters, callee's reads);
+\* MF = current approximation of MustBeParamFull
+CallReadsOf(C, MF, j) ==
+  CASE j.k = "call" /\ j.t \in DOMAIN C.ext ->
+         PlainRegArgs(C.ext[j.t].params) \cup StackArgAddrVars(C.ext[j.t].params)
+    [] j.k = "call" /\ j.t \in DOMAIN MF -> MF[j.t]          \* internal call to a function with blocks
+    [] j.k = "callind" -> InputVars(j.e) \cup VarNames(StdCconv(C.PJ).params)
+    [] OTHER -> {}
+\* walker states of f standing at the end of a block, paired with the call jumps of that block
+CallPoints(C, V, f) ==
+  UNION {{<<s, C.jmps[s.n][i]>> : i \in DOMAIN C.jmps[s.n]} : s \in {x \in V[f] : x.n.k = "BlkEnd"}}
+NextMF(C, V, MR, MF) ==
+  Table([f \in FunTids(C) |->
+     MR[f] \cup UNION {(CallReadsOf(C, MF, cp[2]) \ cp[1].W) \cap C.pr[f] : cp \in CallPoints(C, V, f)}])
+RECURSIVE MFFix(_, _, _, _)
+MFFix(C, V, MR, MF) == LET N == NextMF(C, V, MR, MF) IN IF N = MF THEN MF ELSE MFFix(C, V, MR, N)
+
+\* why the implementation may miss a register that is read by call jump j only
+ReasonOf(C, j) ==
+  IF j.k = "call" /\ j.t \in DOMAIN C.ext /\ C.ext[j.t].noret THEN "noreturn-call-read"
+  ELSE IF j.ret = NoTid THEN "call-without-return-site"
+  ELSE "callee-nonreturning-path"
+
+\* Everything about one project: [ret |-> MustBeParamReturning, full |-> MustBeParamFull,
+\* states |-> walker states per function]
+Analysis(C) ==
   LET RP == RetParams(C)
-  IN  [f \in FunTids(C) |-> {ev[2] : ev \in ReadEvents(C, RP, f)}]
+      W == Table([f \in FunTids(C) |-> Walk(C, RP, f)])
+      MR == Table([f \in FunTids(C) |-> {ev[2] : ev \in W[f].reads}])
+      V == Table([f \in FunTids(C) |-> W[f].states])
+  IN  [ret |-> MR, full |-> MFFix(C, V, MR, MR), states |-> V]
+\* the reason classes for which register r of function f is in Full (given A = Analysis(C))
+MissReasons(C, A, f, r) ==
+  {ReasonOf(C, cp[2]) : cp \in {x \in CallPoints(C, A.states, f) : r \in CallReadsOf(C, A.full, x[2]) \ x[1].W}}
+
+MustBeParamReturningAll(C) == Analysis(C).ret
+MustBeParamFullAll(C) == Analysis(C).full
+MustBeParamAll(C) == MustBeParamFullAll(C)
 MustBeParam(C, f) == MustBeParamAll(C)[f]
 =============================================================================
